@@ -64,7 +64,7 @@ def add_crash(ctx, cfg):
         log.mark()
         f.close()
     n_eff = log.count()
-    ctx.check(n_eff == (k + 1 if cfg["op"] == "add" else 1), "effect-count")
+    ctx.reach(f"effects:{n_eff}")       # informational: how many file effects the operation had (not part of the property)
     crash = ctx.int("crash", 0, n_eff)
     snap = log.snapshot(crash)
     ctx.check(len(snap) == L + 20, "snapshot-wellformed")
@@ -169,6 +169,31 @@ def clear(ctx, cfg):
     ctx.check(g.elements_added == 0 and g.check_alt(hv(ctx, "q", k, m)) is False, "clear-survives-reopen")
 
 
+def relative(ctx, cfg):
+    """the same RELATIVE file name used from two working directories names two different files"""
+    from probables import BloomFilter, BloomFilterOnDisk
+    env.setup(ctx, "bloom")
+    fs = env.FS(ctx, ["bloom"], cwd=0)
+    k_m = BloomFilter(cfg["est"], cfg["fpr"])
+    k, m = k_m.number_hashes, k_m.number_bits
+    a = BloomFilterOnDisk("same-name.blm", cfg["est"], cfg["fpr"])
+    ka = hv(ctx, "ka", k, m)
+    a.add_alt(ka)
+    a.close()
+    fs.chdir(1)
+    b = BloomFilterOnDisk("same-name.blm", cfg["est"], cfg["fpr"])
+    kb = hv(ctx, "kb", k, m)
+    b.add_alt(kb)
+    b.add_alt(kb)
+    b.close()
+    fa, fb = fs.read(0, "same-name.blm"), fs.read(1, "same-name.blm")
+    ctx.check(fa is not None and fb is not None, "relative-names-are-per-directory")
+    if fa is not None and fb is not None:
+        ga, gb = BloomFilter.frombytes(fa), BloomFilter.frombytes(fb)
+        ctx.check(ga.check_alt(ka) is True and ga.elements_added == 1 and gb.check_alt(kb) is True and gb.elements_added == 2,
+                  "relative-names-are-per-directory")
+
+
 def setops(ctx, cfg):
     """C12/C13 with an on-disk operand in either position (goes through BloomFilterOnDisk._get_element)"""
     from .c01 import sym_bloom, bits_of
@@ -220,7 +245,7 @@ def queries(ctx, cfg):
     ctx.check(ctx.eq(f.elements_added, N), "queries-leave-counter")
 
 
-HARNESS = {"c11.add_crash": add_crash, "c11.history": history, "c11.reopen": reopen, "c11.export": export, "c11.setops": setops, "c11.clear": clear,
+HARNESS = {"c11.add_crash": add_crash, "c11.history": history, "c11.reopen": reopen, "c11.export": export, "c11.setops": setops, "c11.clear": clear, "c11.relative": relative,
            "c11.queries": queries}
 
 
@@ -230,6 +255,6 @@ def jobs(tier):
     for est, fpr in geos:
         for op in ("add", "close"):
             js.append({"h": "c11.add_crash", "cfg": {"est": est, "fpr": fpr, "op": op}, "opts": {"cost": est * 5}})
-        for h in ("history", "reopen", "export", "setops", "queries", "clear"):
+        for h in ("history", "reopen", "export", "setops", "queries", "clear", "relative"):
             js.append({"h": "c11." + h, "cfg": {"est": est, "fpr": fpr}, "opts": {"cost": est}})
     return js
